@@ -53,6 +53,9 @@ def make_ctx():
     c.lganm = sempler.LGANM(c.W, np.array([0.5, -1.0, 2.0]), np.array([1.0, 0.5, 2.0]))
     c.lganm_seeded = sempler.LGANM(c.W, (0, 1), (0.5, 2), random_state=0)     # a model that was itself built with a seed
     c.nd = sempler.NormalDistribution(np.array([1.0, 2.0, 3.0]), np.array([[2.0, 1, 0], [1, 2, 1], [0, 1, 2]]))
+    c.nd_diag = sempler.NormalDistribution(np.array([1.0, -2.0]), np.array([[2.0, 0.0], [0.0, 0.5]]))
+    c.nd_uni = sempler.NormalDistribution(np.array([1.5]), np.array([[4.0]]))
+    c.lganm_edgeless = sempler.LGANM(np.zeros((3, 3)), np.array([0.5, -1.0, 2.0]), np.array([1.0, 0.5, 2.0]))
     c.A = np.array([[0, 1, 1], [0, 0, 1], [0, 0, 0]])
     c.anm = sempler.ANM(c.A, [None, lambda x: 2 * x, lambda x: x[:, 0] - x[:, 1] ** 2],
                         [noise.normal(0, 1), noise.uniform(-1, 1), noise.laplace(0, 2)])
@@ -69,6 +72,11 @@ def _ops():
     ops["lganm_sample_iv"] = lambda c, s: c.lganm.sample(3, do_interventions={0: (1, 2)}, shift_interventions={2: (0.5, 1)}, random_state=s)
     ops["lganm_seeded_ctor_sample"] = lambda c, s: c.lganm_seeded.sample(3, noise_interventions={1: (0.5, 2)}, random_state=s)
     ops["nd_sample"] = lambda c, s: c.nd.sample(4, random_state=s)
+    ops["nd_diag_sample"] = lambda c, s: c.nd_diag.sample(3, random_state=s)
+    ops["nd_univariate_sample"] = lambda c, s: c.nd_uni.sample(3, random_state=s)
+    ops["lganm_edgeless_sample"] = lambda c, s: c.lganm_edgeless.sample(3, random_state=s)
+    ops["lganm_all_parents_do_sample"] = lambda c, s: c.lganm.sample(3, do_interventions={1: (0, 1), 2: (1, 2)}, random_state=s)
+    ops["dag_avg_deg_sparse"] = lambda c, s: [gen.dag_avg_deg(3, 0.25, 0.5, 2, random_state=s + 100 * t) for t in range(4)]
     ops["anm_sample"] = lambda c, s: c.anm.sample(4, random_state=s)
     ops["anm_sample_iv"] = lambda c, s: c.anm.sample(3, do_interventions={1: noise.uniform(1, 2)}, noise_interventions={0: noise.laplace()}, random_state=s)
     ops["dag_avg_deg"] = lambda c, s: gen.dag_avg_deg(5, 2, 0.5, 2, random_state=s)
@@ -297,10 +305,10 @@ def describe(tier, seed):
     return {
         "technique": "explicit-state exploration of call histories on the real objects with the real numpy RNG: all histories to a depth without deduplication + BFS "
                      "deduplicated on a canonical state digest; differential oracle (bit-identity with the initial-state result)",
-        "rule": "history alphabet of %d operations: 15 seeded APIs (LGANM construction with ranges, LGANM / NormalDistribution / ANM sampling plain and intervened with "
+        "rule": "history alphabet of %d operations: 20 seeded API configurations (LGANM construction with ranges, LGANM / NormalDistribution / ANM sampling plain and intervened with "
                 "normal+uniform+laplace noise, dag_avg_deg with/without ordering, dag_full, intervention_targets with/without replacement, split_data, add_edges, "
                 "remove_edges) x seeds {0, 12345} plus 12 perturbations (reseeding numpy with 99 and 0, global draws, private generators, unseeded library sampling and "
-                "construction, set_state); every history of length <= %d (no deduplication) and BFS with state deduplication to depth %d; in every state all 15 seeded "
+                "construction, set_state); every history of length <= %d (no deduplication) and BFS with state deduplication to depth %d; in every state all 20 seeded "
                 "APIs x seeds {0, 1, 42, 12345, VERIF_SEED} must be bit-identical to the initial-state reference and 5 unseeded samplers called twice must differ; the "
                 "reference table is recomputed in two fresh interpreters with other PYTHONHASHSEED values. non-trivial: non-empty history" % (
                     len(alpha), 2 if tier == "quick" else 3, 3 if tier == "quick" else 4),
